@@ -113,6 +113,17 @@ class Seq:
         self.win = win       # (array term, lo, hi) when the sequence is a contiguous window
 
 
+class Uninit:
+    """value of an uninitialised C object"""
+    __slots__ = ('name',)
+
+    def __init__(self, name):
+        self.name = name
+
+    def __repr__(self):
+        return 'Uninit(%s)' % self.name
+
+
 class TView:
     """m.T of a 2-D array object"""
     __slots__ = ('ref',)
@@ -278,7 +289,7 @@ def find_triggers(body, vs):
     def walk(t):
         if z3.is_app(t):
             n = t.decl().name()
-            if n in ('T1', 'T2') and all(c.get_id() in ids for c in t.children()):
+            if n in ('T1', 'T2') and any(c.get_id() in ids for c in t.children()):
                 if not any(t.eq(f) for f in found):
                     found.append(t)
                 return
@@ -289,7 +300,7 @@ def find_triggers(body, vs):
     walk(body)
     covered = set()
     for f in found:
-        covered |= {c.get_id() for c in f.children()}
+        covered |= {c.get_id() for c in f.children() if c.get_id() in ids}
     if found and covered >= ids:
         return [found[0]] if len(found) == 1 else [z3.MultiPattern(*found)]
     return []
